@@ -149,6 +149,8 @@ def check_list(ports):
             seen = set()
             for text, idx, layers in lookups:
                 for variant in (text, text.upper(), text.lower()):
+                    if variant.lower() != text.lower():
+                        continue            # (upper-casing a ligature spells a different name)
                     for layer in layers:
                         if (variant, idx, layer) in seen:
                             continue
@@ -188,7 +190,9 @@ def _judge(ports, devices, idx, text, got):
         return f"returned a later port although {devices[idx]} matches and comes first"
     if pos < idx:
         hay = " ".join(ports[pos]).lower()
-        if text.lower() not in hay:
+        # "case-insensitively": simple lower-casing, or full Unicode case folding (under which
+        # STRASSE and Straße are one name) - an earlier port that matches under either is a match
+        if text.lower() not in hay and text.casefold() not in " ".join(ports[pos]).casefold():
             return (f"returned the earlier port {got}, whose fields do not contain the lookup "
                     f"text")
     return None
@@ -300,6 +304,24 @@ def prefix_name_lists():
     return out
 
 
+def folding_pair_lists():
+    """Two boards whose names are the same under full Unicode case folding and different under
+    simple lower-casing (sharp s, ligatures, final sigma, dotted capital I): whichever notion of
+    "case-insensitive" the library uses, both layers must use the same one."""
+    out = []
+    for plain, fancy in (("STRASSE", "Stra\u00dfe"), ("Office", "O\ufb03ce"), ("\u03c3\u03b1\u03c3", "\u03c3\u03b1\u03c2"),
+                         ("first", "\ufb01rst"), ("i\u0307stanbul", "\u0130stanbul")):
+        a_ser = ("COM3", "USB Serial Device (COM3)", VIDPID + " SER=" + plain + " LOCATION=1-1")
+        b_ser = ("COM4", "USB Serial Device (COM4)", VIDPID + " SER=" + fancy + " LOCATION=1-2")
+        a_des = ("/dev/cu.usbmodem3", "EiBotBoard," + plain, VIDPID + " LOCATION=20-3")
+        b_des = ("/dev/cu.usbmodem4", "EiBotBoard," + fancy, VIDPID + " LOCATION=20-4")
+        for first, second in ((a_ser, b_ser), (b_ser, a_ser), (a_des, b_des), (b_des, a_des),
+                              (a_ser, b_des), (b_des, a_ser)):
+            out.append([first, second])
+            out.append([DESCRIPTORS[6], first, second])
+    return out
+
+
 def odd_hwid_lists():
     """Boards identified by their description alone, with every kind of hardware-id text pyserial
     produces for a port it knows little about ('n/a' for non-USB ports, empty, a Bluetooth or
@@ -389,7 +411,7 @@ def run(ctx):
     part = core.fan_out(ctx, _chunk, jobs)
     part.merge(core.fan_out(ctx, _reuse_chunk, core.split(short_lists(), 32)))
     part.merge(core.fan_out(ctx, _names_chunk, core.split(name_alphabet_lists() + word_name_lists(), 16)))
-    part.merge(core.fan_out(ctx, _prefix_chunk, core.split(prefix_name_lists() + odd_hwid_lists(), 8)))
+    part.merge(core.fan_out(ctx, _prefix_chunk, core.split(prefix_name_lists() + odd_hwid_lists() + folding_pair_lists(), 8)))
     for clause, msg, _l in check_raising():
         part.violation(clause, msg, {"kind": "raising"})
     # long enumerations: every descriptor in turn preceded by 30 foreign ports and followed by
